@@ -183,5 +183,7 @@ def run(chk, prog):
         e_ = A.enclosing(idxm, unk[0], {"CompoundStmt"})
         ok = bool(e_) and any(y["k"] == "ReturnStmt" for y in A.walk(e_[0]))
     chk.check(ok, "R4", A.loc(mainf, unk[0]) if unk else mainf.where, "a start file of unknown type is refused with a message and a return", "main:unknown-start-format")
+    for key_ in list(mm.eff.memo):
+        chk.functions.add(key_[0])
     chk.notes.append("C11: record selection and guarded read, refresh before the first step for every start kind, block agreement, refusal discipline. "
                      "NOT decided: numerical equality of a split run and an uninterrupted run.")
